@@ -63,6 +63,20 @@ def run(ctx, rep):
     oks = rules.ok_return_blocks(r)
     okp = bool(pops) and bool(oks) and all(rules.call_dominates(r, pops, b) for b in oks)
     rep.ob("C17.trace", "Function::run pops its frame(s) on every Ok return", "ok" if okp else "violated", "", r.span, fn=r.path, key="C17.trace|run|pop-on-ok")
+    # the caller's frame stays on the stack while a callee runs: once Stack::pop / pop_until_function has been executed, Function::run
+    # neither runs another instruction handler nor hands a jump request to the callback (it can only return)
+    after_pop = set()
+    for c in pops:
+        if c.target is not None:
+            after_pop |= {b for b in r.reachable(c.target) if not r.blocks[b].get("cleanup")}
+    cb_calls = [c for c in r.calls() if ("FnMut::call_mut" in c.callee() or "Fn::call" in c.callee() or "FnOnce::call_once" in c.callee())
+                and c.args and op_local(c.args[0]) is not None and ("impl Fn" in r.locals[op_local(c.args[0])] or r.local_name(op_local(c.args[0])) == "jump_callback"
+                                                                     or op_local(c.args[0]) <= r.argc)]
+    late = [c for c in handlers + cb_calls if c.bb in after_pop]
+    rep.floor("C17.jump callback calls in Function::run", len(cb_calls), 1)
+    rep.ob("C17.trace", "a function's frame is on the stack while the functions it calls run (no handler and no call-out after the frame was popped)",
+           "violated" if late else "ok", "; ".join("%s at %s runs after the frame was popped" % (mir.short(c.callee()), c.span) for c in late[:3]), r.span, fn=r.path,
+           key="C17.trace|run|frame-held-during-call")
     fe = failure_edges(r)
     rep.floor("C17.failure edges in Function::run", len(fe), 5)
     frame_pops = ("bytecode::stack::Stack::pop", "bytecode::stack::Stack::pop_until_function", "bytecode::context::Ctx::pop_frame")
